@@ -404,6 +404,8 @@ def start_items(tier):
         items.append(("SKEL", t, False, True))
     for t in F.nary_terms(tier):
         items.append(("NARY", t, False, tier == "thorough" and M.size(t) <= 8))
+    for t in F.param_terms(tier):
+        items.append(("PARAM", t, False, M.size(t) <= 4))
     for lab, t in F.chain_terms(tier):
         n = M.size(t)
         items.append(("CHAIN:" + lab, t, False, n <= (21 if tier == "thorough" else 9)))
